@@ -43,8 +43,24 @@ def run(rep):
     mir = Mir()
     rep.explanation = __doc__
     rep.trusted = ['rustc nightly MIR + Instance resolution', 'handles produced by naga for a module index that module\'s arenas without panicking']
-    G = sorted(n for n, b in mir.bodies.items() if agg_sites(b, f'{ERR}::DuplicateBinding'))
-    Gn = sorted(n for n, b in mir.bodies.items() if agg_sites(b, f'{ERR}::NonConsecutiveBindGroups'))
+    # the group-data function by role: the function that collects the bindings (has the push) and - itself or through small helper
+    # functions, which are inlined at MIR level - constructs DuplicateBinding
+    from engine_mir import inlined
+    G0 = sorted(n for n, b in mir.bodies.items() if agg_sites(b, f'{ERR}::DuplicateBinding'))
+    X = []
+    for g in G0:
+        if any(cname(t) == 'std::vec::Vec::<T, A>::push' for _, t in mir.bodies[g].calls()):
+            X.append(g)
+        else:
+            for cn, cb in mir.bodies.items():
+                if cb.kind != 'Closure' and any(cname(t) == g for _, t in cb.calls()) and any(cname(t) == 'std::vec::Vec::<T, A>::push' for _, t in cb.calls()):
+                    X.append(cn)
+    helper_parents = set()
+    for x in sorted(set(X)):
+        helper_parents |= {cname(t) for _, t in mir.bodies[x].calls() if cname(t) in mir.bodies and mir.bodies[cname(t)].kind != 'Closure'}
+        mir.bodies[x] = inlined(mir, x, depth=2)
+    G = sorted(n for n, b in mir.bodies.items() if n in set(X) and agg_sites(b, f'{ERR}::DuplicateBinding'))
+    Gn = sorted(n for n, b in mir.bodies.items() if agg_sites(b, f'{ERR}::NonConsecutiveBindGroups') and n not in helper_parents)
     rep.floor('functions constructing DuplicateBinding', len(G), 1)
     rep.floor('functions constructing NonConsecutiveBindGroups', len(Gn), 1)
     rep.analysed = {'group_data_functions': G, 'non_consecutive_sites_in': Gn, 'bodies': len(mir.bodies)}
@@ -95,12 +111,18 @@ def run(rep):
             cmp_ok = False
             if cl and cl in mir.bodies:
                 CB = mir.bodies[cl]
+                up_roots = [canon(B, op_place(o)) for o in (ups or []) if op_place(o)]
                 for blk in CB.blocks:
                     for st in blk['stmts']:
                         rv = st['rv']
                         if rv['rk'] == 'binop' and rv['op'] == 'Eq':
                             rs = [canon(CB, op_place(o)) for o in rv['ops'] if op_place(o)]
-                            if len(rs) == 2 and any(r[0] == 2 and 'binding_index' in r[1] for r in rs) and any(r[0] == 1 and r[1].endswith('.binding') for r in rs):
+                            elem_side = any(r[0] == 2 and 'binding_index' in r[1] for r in rs)
+                            cap = [r for r in rs if r[0] == 1]
+                            # the captured value is the binding index of the variable being added: either `<captured ResourceBinding>.binding`, or a
+                            # captured integer that the creator took from `.binding`
+                            cap_ok = any(r[1].endswith('.binding') for r in cap) or (bool(cap) and any(u[1].replace('&', '').replace('*', '').endswith('.binding') for u in up_roots))
+                            if len(rs) == 2 and elem_side and cap_ok:
                                 cmp_ok = True
             rep.check(cmp_ok, 'C11.R1.scan-compares-index', key, B.where(bb),
                       'the scan closure is not `element.binding_index == <captured binding>.binding`', ok_detail='element.binding_index == binding.binding')
@@ -126,6 +148,9 @@ def run(rep):
                 names = [method(cname(x)) for x in g2['calls']]
                 if 'next' in names:
                     continue
+                from mirutil import correlated_origin
+                if correlated_origin(B, g2['block']) is not None and set(names) <= {'branch'}:
+                    continue   # the `?` on a helper's Result that merely propagates the outcome of the scan
                 if any('.binding' in p[1] and p[1].count('.') == 1 for p in g2['places'] if p) or any(p and p[1].endswith('.binding') for p in g2['places']):
                     continue
                 # drop flags
@@ -170,7 +195,7 @@ def run(rep):
     # ---- R3 ----------------------------------------------------------------------------------------------------------
     for gname in G:
         B = mir.bodies[gname]
-        oks = agg_sites(B, 'std::result::Result::Ok')
+        oks = [(b_, st_) for b_, st_ in agg_sites(B, 'std::result::Result::Ok') if st_['lhs']['l'] == 0]   # returns of this function (not of inlined helpers)
         rep.check(len(oks) == 1, 'C11.R3.single-ok', f'single-ok:{gname}', B.where(), f'{len(oks)} Ok returns', ok_detail='one Ok return')
         for b, st in oks:
             r = canon(B, op_place(st['rv']['ops'][0])) if op_place(st['rv']['ops'][0]) else None
@@ -229,7 +254,7 @@ def run(rep):
     # ---- R4 ----------------------------------------------------------------------------------------------------------
     members = set()
     for gname in set(G) | set(Gn):
-        members |= {n for n in mir.bodies if mir.bodies[n].parent == gname or n == gname}
+        members |= {n for n in mir.bodies if mir.bodies[n].parent == gname or n == gname or (mir.bodies[n].kind == 'Closure' and mir.bodies[n].parent in helper_parents)}
     for n in sorted(members):
         B = mir.bodies[n]
         sites = panic_sites(B, allow_arena=True)
